@@ -867,20 +867,26 @@ func (r *RIB) DeleteEntry(ni string, op *spb.AFTOperation) ([]*OpResult, []*OpRe
 		// Decrement the reference counts.
 		switch {
 		case originalv4 != nil:
-			referencingRIB, err := r.refdRIB(niR, originalv4.GetNextHopGroupNetworkInstance())
-			if err != nil {
-				return nil, nil, err
+			// The entry has been removed. A group in a network instance that the RIB
+			// does not know (possible only with the check function disabled) holds
+			// no reference to give back.
+			if referencingRIB, err := r.refdRIB(niR, originalv4.GetNextHopGroupNetworkInstance()); err != nil {
+				log.Errorf("cannot find NHG network instance %s", originalv4.GetNextHopGroupNetworkInstance())
+			} else {
+				referencingRIB.decNHGRefCount(originalv4.GetNextHopGroup())
 			}
-			referencingRIB.decNHGRefCount(originalv4.GetNextHopGroup())
 			callHook = true
 			aft = constants.IPv4
 			key = originalv4.GetPrefix()
 		case originalv6 != nil:
-			referencingRIB, err := r.refdRIB(niR, originalv6.GetNextHopGroupNetworkInstance())
-			if err != nil {
-				return nil, nil, err
+			// The entry has been removed. A group in a network instance that the RIB
+			// does not know (possible only with the check function disabled) holds
+			// no reference to give back.
+			if referencingRIB, err := r.refdRIB(niR, originalv6.GetNextHopGroupNetworkInstance()); err != nil {
+				log.Errorf("cannot find NHG network instance %s", originalv6.GetNextHopGroupNetworkInstance())
+			} else {
+				referencingRIB.decNHGRefCount(originalv6.GetNextHopGroup())
 			}
-			referencingRIB.decNHGRefCount(originalv6.GetNextHopGroup())
 			callHook = true
 			aft = constants.IPv6
 			key = originalv6.GetPrefix()
@@ -889,11 +895,14 @@ func (r *RIB) DeleteEntry(ni string, op *spb.AFTOperation) ([]*OpResult, []*OpRe
 				niR.decNHRefCount(id)
 			}
 		case originalMPLS != nil:
-			referencingRIB, err := r.refdRIB(niR, originalMPLS.GetNextHopGroupNetworkInstance())
-			if err != nil {
-				return nil, nil, err
+			// The entry has been removed. A group in a network instance that the RIB
+			// does not know (possible only with the check function disabled) holds
+			// no reference to give back.
+			if referencingRIB, err := r.refdRIB(niR, originalMPLS.GetNextHopGroupNetworkInstance()); err != nil {
+				log.Errorf("cannot find NHG network instance %s", originalMPLS.GetNextHopGroupNetworkInstance())
+			} else {
+				referencingRIB.decNHGRefCount(originalMPLS.GetNextHopGroup())
 			}
-			referencingRIB.decNHGRefCount(originalMPLS.GetNextHopGroup())
 			callHook = true
 			aft = constants.MPLS
 			key = originalMPLS.GetLabel()
